@@ -16,6 +16,7 @@
   ---------------------------------------------------  -------------------------------------------------------
   type/user of the FIRST `type:user@hosts` word         first_word_wins(_reexpand), run_eq_spec(_reexpand),
     naming the host                                       rcmd_lookup_exact (whole-name key: n1 / n10)
+  the user name arrives whole (or the run is refused)   user_whole_or_refused
   otherwise -R / PDSH_RCMD_TYPE and -l, otherwise       defaults_chain, defaultName_eq, last_R_wins_R_over_env,
     the documented defaults                               last_l_wins (composed with C18.precedence)
   rank = zero-based position in the FINAL list          rank_is_position, contacted_as_specified (composed with
@@ -34,7 +35,8 @@
 
   NOT proved: that the C code equals the models (correspondence checks (a)-(f) of checks/c09.py); rresvport(),
   connect(), xpoll(), accept() themselves (parameters of Exec/Xrcmd.lean: `World`); write(2) failing or being
-  short; the limit on the length of a user name (login_name_max_len: refused by opt.c, C18's subject).
+  short.  The limit on the length of a user name is modelled (Opt/RcmdUser.lean, `user_whole_or_refused`) under the
+  assumption that every -l but the last is within the limit.
 -/
 import PdshVerif.Exec.Lemmas
 import PdshVerif.Exec.EndToEnd
@@ -43,6 +45,7 @@ import PdshVerif.Exec.XrcmdSpec
 import PdshVerif.Opt.RcmdBridge
 import PdshVerif.Props.C18
 import PdshVerif.Opt.RcmdLemmas
+import PdshVerif.Opt.RcmdUser
 
 namespace PdshVerif.C09
 open PdshVerif.Exec PdshVerif.Exec.Spec
@@ -632,6 +635,27 @@ theorem rsh_end_to_end (cfg : Cfg) (words : List Word) (targets : List Str) (ls 
   refine ⟨hi', ?_⟩
   rw [hg]
   exact (wire_request_exact port cfg.luser _ (joinCmd argv) hlu hru (joinCmd_nul_free argv hargv)).1
+
+/-! ## the limit on user names (opt.c login_name_max_len / copy_username / wcoll_arg_process) -/
+
+/-- A REMOTE USER NAME IS EITHER PASSED ON WHOLE OR REFUSES THE RUN: with the limit `m` of the machine
+    (`Gen.MO_LOGIN_NAME_MAX`), a name longer than `m` -- from -l or from any `user@hosts` word -- ends the run
+    before any connection; when all names are within the limit the run is exactly the run the theorems above
+    speak about (so each host gets the name as typed, never a truncated one) -/
+theorem user_whole_or_refused (m : Nat) (re : Bool) (cfg : Cfg) (words : List Word) (targets : List Str) :
+    ((∃ u, cfg.optL = some u ∧ u.length > m) ∨ (∃ w ∈ words, ∃ u, wordUser w = some u ∧ u.length > m) →
+      runChecked (some m) re cfg words targets = .fatal) ∧
+    ((∀ u, cfg.optL = some u → u.length ≤ m) → (∀ w ∈ words, ∀ u, wordUser w = some u → u.length ≤ m) →
+      runChecked (some m) re cfg words targets = (if re then runRe cfg words targets else run cfg words targets)) :=
+  ⟨long_user_refused m re cfg words targets, runChecked_eq m re cfg words targets⟩
+
+/-- a 5-byte name against a limit of 4: refused; the 4-byte name: contacted under exactly that name -/
+example :
+    let cfg : Cfg := ⟨["exec".toList], ["exec".toList], none, none, none, "me".toList⟩
+    runChecked (some 4) true cfg [⟨"abcde@h1".toList, [['h', '1']], [['h', '1']]⟩] [['h', '1']] = .fatal ∧
+    runChecked (some 4) true cfg [⟨"abcd@h1".toList, [['h', '1']], [['h', '1']]⟩] [['h', '1']] =
+      .lines [⟨some "exec".toList, ['h', '1'], "abcd".toList, 0⟩] := by
+  decide
 
 /-! ## the rsh handshake: privileged-port loop, stderr back-connection, request (src/modules/xrcmd.c) -/
 
